@@ -31,4 +31,22 @@ let () =
       let ((h, p), tl) = reduce_counts (z_of_int w) (z_of_int rows) (z_of_int n) e in
       Printf.printf "%d %d %d %d\n" !ln (int_of_z h) (int_of_z p) (int_of_z tl)
     end
+    else if Array.length t > 0 && t.(0) = "G" then begin
+      (* G type w rank d0..d(r-1) kind mt st0.. ma sa0.. head packets tail mism *)
+      let i k = int_of_string t.(k) in
+      let w = i 2 and r = i 3 in
+      let dims = List.map (fun k -> i (4 + k)) (range 0 r) in
+      let kind = i (4 + r) and mt = i (5 + r) in
+      let st = List.map (fun k -> z_of_int (i (6 + r + k))) (range 0 r) in
+      let ma = i (6 + 2 * r) in
+      let sa = List.map (fun k -> z_of_int (i (7 + 2 * r + k))) (range 0 r) in
+      let n = List.nth dims (r - 1) in
+      let rows = List.fold_left ( * ) 1 (List.filteri (fun k _ -> k < r - 1) dims) in
+      let zw = z_of_int w in
+      let a = VArr (z_of_int ma, rows_ok zw sa) in
+      let ((h, p), tl) =
+        if kind = 0 then stmt_counts zw (z_of_int rows) (z_of_int n) (z_of_int mt) (rows_ok zw st) (VBin (a, a))
+        else reduce_counts zw (z_of_int rows) (z_of_int n) a in
+      Printf.printf "%d %d %d %d\n" !ln (int_of_z h) (int_of_z p) (int_of_z tl)
+    end
   done with End_of_file -> ()
